@@ -461,6 +461,30 @@ class Exec:
         v = self.ev(st.value, env)
         for t in st.targets:
             self.assign(t, v, env)
+        # alias bookkeeping: `x = y` binds the same object (matters for in-place updates when the value is an ndarray at run time)
+        if len(st.targets) == 1 and isinstance(st.targets[0], ast.Name) and isinstance(st.value, ast.Name) and T.is_num(v) and not isinstance(v, (bool, int, float)):
+            al = env.setdefault("__alias__", {})
+            gid = al.get(st.value.id)
+            if gid is None:
+                gid = al[st.value.id] = ("g", st.value.id, st.lineno)
+            al[st.targets[0].id] = gid
+
+    def _alias_live_after(self, st, name):
+        """is `name` read after statement st (or anywhere in a loop enclosing st), or is it a parameter of the current function?"""
+        fn = self._fnstack[-1]
+        node = getattr(fn, "node", None)
+        if node is None:
+            return True
+        if name in getattr(fn, "params", []):
+            return True
+        spans = [(n.lineno, n.end_lineno) for n in ast.walk(node) if isinstance(n, (ast.For, ast.While)) and n.lineno <= st.lineno <= (n.end_lineno or n.lineno)]
+        for n in ast.walk(node):
+            if isinstance(n, ast.Name) and n.id == name and isinstance(n.ctx, ast.Load):
+                if n.lineno > (st.end_lineno or st.lineno):
+                    return True
+                if any(a <= n.lineno <= b for a, b in spans) and not (st.lineno <= n.lineno <= (st.end_lineno or st.lineno)):
+                    return True
+        return False
 
     def st_AnnAssign(self, st, env):
         if st.value is not None:
@@ -469,11 +493,25 @@ class Exec:
     def st_AugAssign(self, st, env):
         cur = self.ev(_load(st.target), env)
         v = self.binop(st.op, cur, self.ev(st.value, env), st)
+        if isinstance(st.target, ast.Name) and self.opts.get("alias_check", True) and T.is_num(cur) and not isinstance(cur, (bool, int, float)):
+            al = env.get("__alias__", {})
+            gid = al.get(st.target.id)
+            if gid is not None:
+                for other, g2 in list(al.items()):
+                    if other != st.target.id and g2 == gid and other in env and self._alias_live_after(st, other):
+                        a_, b_ = (T.Cx.of(v), T.Cx.of(cur)) if (isinstance(v, T.Cx) or isinstance(cur, T.Cx)) else (None, None)
+                        goal = sp.And(sp.Eq(a_.re, b_.re), sp.Eq(a_.im, b_.im)) if a_ is not None else sp.Eq(sp.sympify(v), sp.sympify(cur))
+                        self.oblige("alias", st, goal, f"in-place `{st.target.id} {type(st.op).__name__}= ...` acts on the object also named `{other}` (bound by `=`), which is "
+                                                       f"used afterwards: with ndarray arguments the update changes `{other}` too, so array and scalar calls differ unless the update is the identity",
+                                    extra_meta=dict(alias=other, target=st.target.id))
         self.assign(st.target, v, env)
 
     def assign(self, t, v, env):
         if isinstance(t, ast.Name):
             env[t.id] = v
+            al = env.get("__alias__")
+            if al and t.id in al:
+                del al[t.id]
         elif isinstance(t, (ast.Tuple, ast.List)):
             vs = list(v) if isinstance(v, (tuple, list)) else None
             if vs is None or len(vs) != len(t.elts):
